@@ -317,3 +317,62 @@ func jsonDiff(a, b string) string {
 	walk("", x, y)
 	return strings.Join(out, "; ")
 }
+
+// ---- wide rounds: the same history oracle over rounds with many participants (FSM level, no node) --------------------
+
+func c05GenWide(rt *rapid.T) c05Walk {
+	n := rapid.IntRange(6, 24).Draw(rt, "n")
+	w := c05Walk{N: n, T: rapid.IntRange(2, n).Draw(rt, "t")}
+	k := rapid.IntRange(n, 6*n+30).Draw(rt, "len")
+	for i := 0; i < k; i++ {
+		w.Steps = append(w.Steps, c05Choice{
+			Useful: rapid.IntRange(0, 19).Draw(rt, "useful") < 18,
+			Idx:    rapid.IntRange(0, 8000).Draw(rt, "idx"),
+		})
+	}
+	return w
+}
+
+func c05RunWide(st *vstat.Stats, w c05Walk) *viol {
+	alphabet := fxAlphabet(w.N, w.T)
+	var o fxOracle
+	dump := fxInitialDump()
+	accepted, rejected := 0, 0
+	var hist []string
+	for si, c := range w.Steps {
+		var e fxEvent
+		if u := usefulEvents(o, w.N); c.Useful && len(u) > 0 && !o.Cancelled {
+			e = u[c.Idx%len(u)]
+		} else {
+			e = alphabet[c.Idx%len(alphabet)]
+		}
+		res := fxStep(dump, e.Name, fxData(e, w.N, w.T), fxT0)
+		hist = append(hist, fmt.Sprintf("%s->%v", e, res.Accepted))
+		post, jv := fxJudge(o, e, res, w.N)
+		if jv != nil {
+			return violf("wide:"+jv.Key, "n=%d t=%d step %d of %v: %s", w.N, w.T, si, hist, jv.What)
+		}
+		if res.Accepted {
+			accepted++
+			dump, o = res.Dump, post
+		} else {
+			rejected++
+		}
+		if o.Phase == phReady {
+			break
+		}
+	}
+	end := map[bool]string{true: "cancelled", false: fxPhaseNames[o.Phase]}[o.Cancelled]
+	size := "6-9"
+	if w.N >= 17 {
+		size = "17-24"
+	} else if w.N >= 10 {
+		size = "10-16"
+	}
+	st.Class("wide-end:" + end + ":n=" + size)
+	if accepted > 0 && (o.Phase > phInvitation || o.Cancelled) {
+		st.NonTrivial("wide/" + strings.Join(hist, ";"))
+		st.SampleEvery(100, map[string]any{"n": w.N, "t": w.T, "wide_walk_length": len(hist), "rejected": rejected, "end": end})
+	}
+	return nil
+}
